@@ -184,8 +184,43 @@ def check_C03(ctx, rt):
             from props import run_decoder_stream
             run_decoder_stream(ctx, rt, "roundtrip-dec", sels, tname, tab)
         ctx.sample({"smiles": pool[5], "selfies": sf.encoder(pool[5], strict=False)})
+        hypothesis_coverage(ctx, rt, pool, relaxed(sf))
     finally:
         restore_default()
+
+
+def hypothesis_coverage(ctx, rt, pool, table):
+    """evaluate the DECIDABLE HYPOTHESES of the graph-level theorems (isPWF for C05_kekulize_sound,
+    roundTripReady for C03_roundtrip) on the graphs of the inputs the real encoder accepts; an accepted input
+    on which a hypothesis is false is outside the theorem (reported in the evidence, not a violation)"""
+    if rt.model is None:
+        return
+    sf.set_semantic_constraints(dict(table))
+    lines = ["T\t" + enc_dict({k: int(v) for k, v in sf.get_semantic_constraints().items()})]
+    inputs = []
+    for smi in pool:
+        if not sendable(smi):
+            continue
+        r, tape = impl.real_encoder(smi, strict=True)
+        if not r.startswith("ok\t"):
+            continue
+        sel = dec(r.split("\t")[1])
+        if "Ring4" in sel or "Branch4" in sel or "Ring5" in sel or "Branch5" in sel:
+            continue
+        lines.append("hyp\ts\t%s\t%s" % (impl.tape_str(tape), enc(smi)))
+        inputs.append(smi)
+    got = rt.model.run(lines)[1:]
+    cov = {"accepted_inputs": len(inputs), "isPWF_true": 0, "roundTripReady_true": 0, "false_samples": []}
+    for smi, g in zip(inputs, got):
+        f = g.split("\t")
+        if len(f) >= 3:
+            cov["isPWF_true"] += f[1] == "1"
+            cov["roundTripReady_true"] += f[2] == "1"
+            if (f[1] != "1" or f[2] != "1") and len(cov["false_samples"]) < 10:
+                cov["false_samples"].append({"smiles": smi[:200], "isPWF": f[1], "roundTripReady": f[2]})
+    ctx.distribution["theorem_hypotheses_on_accepted_inputs"] = cov
+    if cov["false_samples"]:
+        ctx.notes.append("theorem hypotheses false on %d accepted inputs (see distribution)" % len(cov["false_samples"]))
 
 
 def check_C04(ctx, rt):
